@@ -400,8 +400,9 @@ def gen_point(rng, spec, cfg, integer_alpha_for_normsys=True):
                 if r < 0.5:
                     pars.append(rng.choice(GRID))
                 elif r < 0.7:
+                    # just off a breakpoint (2^-12: exact arithmetic in Coq stays small; 1-ulp neighbours are C03's job)
                     x = rng.choice([-1.0, 1.0, 0.0])
-                    pars.append(math.nextafter(x, rng.choice([-9.0, 9.0])))
+                    pars.append(x + rng.choice([-1, 1]) * 2.0 ** -12)
                 else:
                     pars.append(dy(rng, -4, 4, 0.125))
             else:
